@@ -5,6 +5,7 @@ import spec
 from spec import hex_of
 
 OBLIGATION_MODULES = ["PyModeS.Properties.C11"]
+TIE_MODULES = ["PyModeS.Tie.Bds50"]
 MAIN_THEOREM = "PyModeS.C11.field_spec (one per exported decoder)"
 EXHAUSTIVE = True
 RULE = ("for every field: all raw values x status x sign with random content of all other MB bits and header/parity; "
@@ -142,9 +143,15 @@ def cases(ctx):
             m = frame([(0, 24, mask)])
             caps = ["BDS" + CAP17[k] for k in range(24) if (mask >> (23 - k)) & 1]
             yield dict(op="cap17 " + m, real=("h:props.C11.cap17_join", [m]), expect=",".join(caps) if caps else "[]", tag="cap17")
+            if rng.random() < 0.5:
+                # the same reply decoded again after the caller has emptied the list it was given the first time
+                yield dict(op="cap17 " + m, real=("h:props.C11.cap17_join", [m]), expect=",".join(caps) if caps else "[]", tag="cap17-again")
 
 
 def cap17_join(m):
     import pyModeS
+    import adapters
     r = pyModeS.commb.cap17(m)
-    return ",".join(r) if r else "[]"
+    out = ",".join(r) if r else "[]"
+    adapters.poison(r)
+    return out
